@@ -106,6 +106,8 @@ var fatNamePools = [][]string{
 	{"A.TXT", "B.BIN", "FILE1", "DATA.DAT", "X", "README.MD"},
 	{"readme.txt", "LongFileName1.txt", "LongFileName2.txt", "LongFileName3.dat", "MiXeD.CaS", "averyveryverylongfilenamethatgoesonandonandon_0123456789.extension"},
 	{"Report Final.doc", "x+y=z.txt", "semi;colon.t", "[br].x", "a.b.c.d", "Жук.txt"},
+	// names that fit 8.3 and differ from their short form only in the case of the stem or of the extension
+	{"DATA.txt", "data.TXT", "7.md", "LOGS.d", "Readme.TXT", "lower.low", "UPPER.UPP", "mIx.TXT"},
 }
 var fatDirPools = [][]string{
 	{"D1", "SUB", "DIR.EXT"},
@@ -179,7 +181,7 @@ func genFatCfg(r *core.Rng, tier string, t *core.Trace) {
 func genFatHistory(r *core.Rng, tier string, idx int) *core.Trace {
 	t := &core.Trace{Cfg: map[string]int64{}, CfgS: map[string]string{}}
 	genFatCfg(r, tier, t)
-	pool := r.PickW(45, 45, 10)
+	pool := r.PickW(40, 35, 10, 15)
 	dpool := r.Intn(2)
 	names := fatNamePools[pool]
 	dirs := fatDirPools[dpool]
